@@ -248,6 +248,22 @@ func (c *fuzzComp) buildMessage(tmpl string, v int) ([]byte, string, bool) {
 		ids := []string{`"str"`, "null", `{"a":1}`, "", "123456789012345678901234567890", "-1", `[1]`, "1.5", "true"}
 		idRaw = ids[v%len(ids)]
 		return mk("vipnode_ping", []interface{}{}, true), idRaw, true
+	case "regupdate":
+		// a registered node's keep-alive describing its peers in every odd way (the pool derives ids from these)
+		who := nodeIdents[4+v%2]
+		hex128 := strings.Repeat("ab", 64)
+		enodes := []string{"abc@1.2.3.4:30303", "@", "a@b", "enode:@x", "enode://@", "enode://" + hex128, strings.Repeat("@", 200), "\x00@",
+			"enode://" + hex128[:127] + "@h", strings.Repeat("z", 136), "enode://%zz@[::1", "enode://" + hex128 + "@", "enode://" + hex128 + "@1.2.3.4:30303?discport=0",
+			"ENODE://" + hex128 + "@1.2.3.4:1", "enode://" + hex128 + hex128 + "@1.2.3.4:1", "1234567@", "12345678@", "123456789@", ""}
+		ids := []string{"", "x", hex128, strings.Repeat("q", 300), who.id}
+		var peers []ethnode.PeerInfo
+		for k := 0; k < 1+v%3; k++ {
+			peers = append(peers, ethnode.PeerInfo{ID: ids[(v/3+k)%len(ids)], Enode: enodes[(v+k*7)%len(enodes)], Name: "n", Caps: []string{"eth/63"}})
+		}
+		nonce := c.nextNonce()
+		req := pool.UpdateRequest{BlockNumber: uint64(v), PeerInfo: peers}
+		sig, _ := request.Sign(who.key, "vipnode_update", who.id, nonce, req)
+		return mk("vipnode_update", []interface{}{sig, who.id, nonce, req}, true), idRaw, true
 	case "whitelist":
 		args := []interface{}{[]interface{}{"nodeid"}, []interface{}{}, []interface{}{7}, []interface{}{strings.Repeat("w", 4000)}, []interface{}{"a", "b"}, nil}
 		return mk("vipnode_whitelist", args[v%len(args)], true), idRaw, true
@@ -341,6 +357,17 @@ func (c *fuzzComp) Exec(t []string) (extra []string, out string, eff bool) {
 	if connName == "G" && tmpl != "whitelist" && tmpl != "junk" && tmpl != "reply" && tmpl != "unknown" && tmpl != "ids" {
 		tmpl = "whitelist"
 	}
+	if tmpl == "regupdate" {
+		// the sender registers first (any key works), so that its keep-alive is processed in full
+		who := nodeIdents[4+v%2]
+		nonce := c.nextNonce()
+		req := pool.ConnectRequest{NodeInfo: ethnode.UserAgent{Kind: ethnode.Geth}}
+		sig, _ := request.Sign(who.key, "vipnode_connect", who.id, nonce, req)
+		cm, _ := json.Marshal(map[string]interface{}{"jsonrpc": "2.0", "id": 7001, "method": "vipnode_connect", "params": []interface{}{sig, who.id, nonce, req}})
+		if rc.send(cm) {
+			rc.next(400 * time.Millisecond)
+		}
+	}
 	b, idRaw, _ := c.buildMessage(tmpl, v)
 	// what kind of thing is being sent, judged without the server: a JSON-RPC message that is a request, one that is
 	// not (a reply, or nothing recognisable), or bytes that are not a message at all
@@ -411,7 +438,7 @@ func (c *fuzzComp) Exec(t []string) (extra []string, out string, eff bool) {
 }
 
 func (c *fuzzComp) Gen(r *rand.Rand, idx int, emit func(string)) {
-	tmpls := []string{"signedcall", "signedcall", "wallet", "badsig", "badsig", "arity", "unknown", "ids", "reply", "junk", "whitelist"}
+	tmpls := []string{"signedcall", "signedcall", "wallet", "badsig", "badsig", "arity", "unknown", "ids", "reply", "junk", "whitelist", "regupdate", "regupdate"}
 	for i := 0; i < 25; i++ {
 		conn := pick(r, []string{"A", "A", "B", "G"})
 		emit(fmt.Sprintf("msg conn=%s tmpl=%s v=%d", conn, pick(r, tmpls), r.Intn(1000)))
